@@ -368,6 +368,100 @@ def job(args):
     return r
 
 
+def pattern_job(args):
+    """_LiteDRAMPatternGenerator / _LiteDRAMPatternChecker (address/data pairs from an initialised memory) vs Model/Bist.lean,
+    and their specification: the generator writes exactly the pairs, in order; the checker reports the number of pairs whose
+    address holds another word"""
+    seed, idx, tier = args
+    from migen import run_simulation
+    from litedram.frontend import bist
+    rnd = random.Random("c14p-%d-%d" % (seed, idx))
+    s = rand_setting(rnd, idx)
+    s["wrapper"] = 0
+    r = Result()
+    aw_words = s["aw"] - s["ashift"] if s["axi"] else s["aw"]
+    npairs = rnd.randint(2, 14)
+    init = [(rnd.randrange(1 << aw_words), rnd.getrandbits(s["dw"])) for _ in range(npairs)]
+    if rnd.random() < 0.3 and npairs > 2:
+        init[-1] = (init[0][0], init[-1][1])                     # a repeated address
+    cfg = "%d %d %d %d %d " % (s["dw"], s["aw"], s["axi"], s["ashift"], 16) + " ".join("%d %d" % p for p in init)
+    tag = dict(setting=s, init=init, seed=seed, idx=idx)
+    r.coverage["pattern_runs"] = 1
+
+    def drive(kind, mem):
+        port = make_port(s)
+        dut = (bist._LiteDRAMPatternGenerator if kind == "gen" else bist._LiteDRAMPatternChecker)(port, init=init)
+        if kind == "gen":
+            cmd, dat = (port.aw, port.w) if s["axi"] else (port.cmd, port.wdata)
+        else:
+            cmd, dat = (port.ar, port.r) if s["axi"] else (port.cmd, port.rdata)
+        lines = [cfg, "0 0 1 0 0" if kind == "gen" else "0 0 1 0 0 0"]
+        obs = []
+        res = dict(cmds=[], datas=[], done=None, errors=None)
+
+        def gen():
+            prev = None; started = False; inflight = []; tail = None
+            for t in range(80 * npairs + 400):
+                if prev is not None:
+                    if kind == "gen":
+                        o = ((yield dut.done), (yield dut.ticks), (yield dut.run_cascade_out), (yield cmd.valid), (yield cmd.addr), (yield dat.valid), (yield dat.data))
+                        o = (o[0], o[1], o[2], o[3], o[4] if o[3] else 0, o[5], o[6] if o[5] else 0)
+                        if o[3] and prev[3]:
+                            res["cmds"].append(o[4])
+                        if o[5] and prev[4]:
+                            res["datas"].append(o[6])
+                    else:
+                        o = ((yield dut.done), (yield dut.errors), (yield dut.ticks), (yield dut.run_cascade_out), (yield cmd.valid), (yield cmd.addr), (yield dat.ready))
+                        o = (o[0], o[1], o[2], o[3], o[4], o[5] if o[4] else 0, o[6])
+                        if o[4] and prev[3]:
+                            res["cmds"].append(o[5])
+                            inflight.append([t + rnd.randint(1, 8), mem.get(o[5], 0)])
+                    obs.append(" ".join(str(x) for x in o))
+                    if o[0] and res["done"] is None:
+                        res["done"] = t; res["errors"] = o[1] if kind == "chk" else None; tail = t + 10
+                if tail is not None and t >= tail and not inflight:
+                    break
+                start = 0
+                if not started and t >= 1 and rnd.random() < 0.5:
+                    start, started = 1, True
+                ci = int(rnd.random() < rnd.choice([0.4, 1.0]))
+                cr = int(rnd.random() < 0.7)
+                if kind == "gen":
+                    prev = (0, start, ci, cr, int(rnd.random() < 0.6))
+                    yield dut.reset.eq(0); yield dut.start.eq(start); yield dut.run_cascade_in.eq(ci); yield cmd.ready.eq(cr); yield dat.ready.eq(prev[4])
+                else:
+                    rv, rd = 0, 0
+                    if inflight and inflight[0][0] <= t and rnd.random() < 0.8:
+                        rv, rd = 1, inflight.pop(0)[1]
+                    prev = (0, start, ci, cr, rv, rd)
+                    yield dut.reset.eq(0); yield dut.start.eq(start); yield dut.run_cascade_in.eq(ci); yield cmd.ready.eq(cr); yield dat.valid.eq(rv); yield dat.data.eq(rd)
+                lines.append(" ".join(str(x) for x in prev))
+                yield
+        run_simulation(dut, gen())
+        return lines, obs, res
+    lines, obs, g = drive("gen", None)
+    compare(r, "_LiteDRAMPatternGenerator vs Model/Bist.lean", s, "bistpgen", lines, obs, (3, 5), ("pg", idx))
+    shift = s["ashift"] if s["axi"] else 0
+    exp_addr = [(a << shift) for a, _ in init]; exp_data = [d for _, d in init]
+    if g["done"] is None or g["cmds"] != exp_addr or g["datas"] != exp_data:
+        r.violations.append(dict(signature="c14-pattern-gen", what="pattern generator (%d pairs, %d-bit %s): wrote addresses %s / %d data words, done=%s; the pattern is %s"
+                                 % (npairs, s["dw"], "AXI" if s["axi"] else "native", g["cmds"][:8], len(g["datas"]), g["done"] is not None, exp_addr[:8]), replay=tag))
+    mem = {}
+    for a, d in zip(exp_addr, exp_data):
+        mem[a] = d
+    cor = rnd.sample(sorted(mem), min(len(mem), rnd.choice([0, 1, 2])))
+    for a in cor:
+        mem[a] ^= 1 << rnd.randrange(s["dw"])
+    want = sum(1 for a, d in zip(exp_addr, exp_data) if mem.get(a, 0) != d)
+    lines, obs, c = drive("chk", mem)
+    compare(r, "_LiteDRAMPatternChecker vs Model/Bist.lean", s, "bistpchk", lines, obs, (4, ), ("pc", idx))
+    r.evaluations += 1
+    if c["done"] is None or c["errors"] != want or c["cmds"] != exp_addr:
+        r.violations.append(dict(signature="c14-pattern-chk", what="pattern checker (%d pairs, %d corrupted words): reports %s errors (done=%s), %d pairs differ; read addresses %s"
+                                 % (npairs, len(cor), c["errors"], c["done"] is not None, want, c["cmds"][:8]), replay=dict(tag, corrupted=cor)))
+    return r
+
+
 def witness_job(_):
     """the Lean counterexample of Props/C14 (`addr_out_of_range_witness`: 32-bit native port, base=4, end=8, 6 words) replayed on the real generator"""
     rnd = random.Random("c14-witness")
@@ -388,7 +482,7 @@ def _dispatch(j):
 
 def run(tier, seed):
     n = 96 if tier == "quick" else 600
-    jobs = [(job, (seed, i, tier)) for i in range(n)] + [(witness_job, None)]
+    jobs = [(job, (seed, i, tier)) for i in range(n)] + [(witness_job, None)] + [(pattern_job, (seed, i, tier)) for i in range(24 if tier == "quick" else 200)]
     res = Result()
     for r in core.pmap(_dispatch, jobs):
         res.merge(r)
